@@ -18,6 +18,9 @@ def plan(tier, seed):
     specs = [base] + ([cases.tok("cdn", s=-1, fs=1, orth=False, tag="c14-cdn-nonorth"), cases.tok("usn", s=1, fs=-1, interp="dct", tag="c14-usn-dct")] if tier == "thorough" else [])
     for s in specs:
         jobs.append({"name": "c14-twice-" + s["tag"], "module": "vmon.jobs.c14_unit", "args": {"mode": "twice", "spec": s}, "timeout": 1200})
+    # the same twice with worker processes (completion order differs from run to run)
+    par = dict(cases.tok("cdn", s=-1, fs=1, orth=False, tag="c14-cdn-nonorth-np3"), np=3)
+    jobs.append({"name": "c14-twice-" + par["tag"], "module": "vmon.jobs.c14_unit", "args": {"mode": "twice", "spec": par}, "timeout": 1500})
     jobs.append({"name": "c14-after-other", "module": "vmon.jobs.c14_unit", "args": {"mode": "after_other", "spec": base, "other": other}, "timeout": 1200})
     optsets = [{}, {"reverse_current": True}, {"psi_divide_twopi": True}, {"reverse_Bt": True}, {"reverse_current": True, "psi_divide_twopi": True, "reverse_Bt": True}]
     for k, o in enumerate(optsets):
